@@ -2,6 +2,7 @@ import GA.Props.C05h
 import GA.Props.C06d
 import GA.Props.C06e
 import GA.Props.C06f
+import GA.Props.C06i
 /-
   C06 / C20 / C04, one statement for a whole layer: **after a successful `ApplyLayer`, every entry that has the
   last word on its path has had its effect** — for every layer without symbolic-link entries, every option set
@@ -69,6 +70,26 @@ theorem applyLayer_success_all_present (dest : Str) (o : Opts) (es : List Entry)
       layer_node_last_wins dest o pre post e um w habs hsym hw (Or.inr (Or.inr h)) huns hord.notMeta hord.notWh hord.notDest hfin.1
         (hfin.2 (by rw [h]; decide)) hok
     exact ⟨e', i, n, hrem, hl, hi, hpm, hmt, hown, by rw [h] at hk ⊢; exact hk⟩
+
+/-- … and every hard-link entry whose source is not in the staging area, and whose own path and source nothing
+    later names, shares its source's object -/
+theorem applyLayer_success_links_shared (dest : Str) (o : Opts) (es : List Entry) (um : Nat) (w : World)
+    (habs : isAbs dest = true)
+    (hsym : ∀ x ∈ es, x.typ ≠ .sym)
+    (hw : LW (pathComps (clean dest)) w)
+    (hok : ((applyLayerP dest o es um).run w).1.1 = .ok) :
+    ∀ (pre post : List Entry) (e : Entry), es = pre ++ e :: post → e.typ = .link →
+      hasPrefix (clean e.linkname) whLinkDir = false →
+      hasPrefix (clean e.name) whMetaPrefix = false →
+      hasPrefix (base (join (clean dest) (clean e.name))) whPrefix = false →
+      pathOfL dest e ≠ pathComps (clean dest) →
+      ¬ Cov (touchedL (clean dest) post) (pathOfL dest e) →
+      ¬ Cov (touchedL (clean dest) post) (pathComps (join (clean dest) e.linkname)) →
+      ∃ i, ((applyLayerP dest o es um).run w).2.fs.lookup (pathOfL dest e) = some i ∧
+        ((applyLayerP dest o es um).run w).2.fs.lookup (pathComps (join (clean dest) e.linkname)) = some i := by
+  intro pre post e hes hl hnst hmeta hnwh hne hc hcs
+  subst hes
+  exact layer_link_shares dest o pre post e um w habs hsym hw hl hnst hmeta hnwh hne hc hcs hok
 
 /-- non-vacuity: the re-added `keep` of C06e is an ordinary entry with the last word on its path -/
 example : Ordinary b!"/w/dest" exReadd ∧ FinalL b!"/w/dest" exReadd [] := by
